@@ -16,24 +16,24 @@ FIXTURES = [{"name": "fixture:" + m, "args": ["fixture-load", _os.path.join(_FX,
 
 SCENARIOS = {
     "C01": {
-        "modules": ["C01", "C01Checker", "C01Examples", "Unconditional"],
-        "theorems": ["C01_forest", "C01_invariant", "C01_checker_accepts", "C01_build", "C01_build_any", "C01_history",
+        "modules": ["C01", "C01Checker", "C01Examples", "Unconditional", "Reachable"],
+        "theorems": ["C01_reader_reachable", "C01_forest", "C01_invariant", "C01_checker_accepts", "C01_build", "C01_build_any", "C01_history",
                      "C01_checker_sound", "C01_inv_add", "C01_inv_append", "C01_inv_del", "C01_inv_clear"],
         "quick": [hist("c01", 60, extra=T1), hist("c01", 15), hist("c14", 8, extra=T1)],
         "thorough": [hist("c01", 2500, "thorough", extra=T1), hist("c01", 600, "thorough"), hist("c14", 60, "thorough", extra=T1)],
         "counts": ["C01"],
     },
     "C04": {
-        "modules": ["C04", "C04Build", "Unconditional"],
-        "theorems": ["C04_routed_all_histories", "C04_routed", "C04_checker", "C04_selfLookup", "C04_selfLookup_symm", "C04_selfLookup_by_item", "C04_routed_meaning", "C04_readerFirst_spec",
+        "modules": ["C04", "C04Build", "Unconditional", "Reachable"],
+        "theorems": ["C04_selfLookup_reachable_given_lengths", "C04_selfLookup_reachable_bq", "C04_stored_length_reachable", "C04_routed_all_histories", "C04_routed", "C04_checker", "C04_selfLookup", "C04_selfLookup_symm", "C04_selfLookup_by_item", "C04_routed_meaning", "C04_readerFirst_spec",
                      "C04_side_eq_readerFirst"],
         "quick": [hist("c04", 50, extra=T1)],
         "thorough": [hist("c04", 1200, "thorough", extra=T1), hist("c04", 300, "thorough")],
         "counts": ["C04"],
     },
     "C05": {
-        "modules": ["C05", "C05Build"],
-        "theorems": ["C05_build_preserves", "C05_add", "C05_append", "C05_del", "C05_clear", "C05_contains", "C05_vector", "C05_readback_f32",
+        "modules": ["C05", "C05Build", "Reachable"],
+        "theorems": ["C05_bq_readback", "C05_build_preserves", "C05_add", "C05_append", "C05_del", "C05_clear", "C05_contains", "C05_vector", "C05_readback_f32",
                      "C05_iter", "C05_isEmpty", "C05_refines", "C05_bq_readback_given_roundtrip"],
         "quick": [hist("c05", 60, extra=T1)],
         "thorough": [hist("c05", 1500, "thorough", extra=T1), hist("c05", 200, "thorough")],
@@ -48,14 +48,16 @@ SCENARIOS = {
         "counts": ["C06"],
     },
     "C02": {
-        "theorems": ["C02_exact", "C02_exact_usizeMax", "C02_exact_saturated", "C02_spec", "C02_unique", "C02_exact_bruteforce",
+        "modules": ["C02", "Reachable"],
+        "theorems": ["C02_exact_reachable", "C02_bruteforce_reachable", "C02_exact", "C02_exact_usizeMax", "C02_exact_saturated", "C02_spec", "C02_unique", "C02_exact_bruteforce",
                      "C02_by_vector", "C02_by_item"],
         "quick": [hist("c02", 50, extra=T1), hist("c02", 10), hist("c14", 8, extra=T1)],
         "thorough": [hist("c02", 1200, "thorough", extra=T1), hist("c02", 300, "thorough")],
         "counts": ["C02", "C01"],
     },
     "C03": {
-        "theorems": ["C03_wellformed", "C03_total", "C03_filter_exact", "C03_default_budget", "C03_by_item_absent",
+        "modules": ["C03", "Reachable"],
+        "theorems": ["C03_total_reachable", "C03_filter_exact_reachable", "C03_monotone_reachable", "C03_wellformed", "C03_total", "C03_filter_exact", "C03_default_budget", "C03_by_item_absent",
                      "C03_by_item_present", "C03_by_item_eq_by_vector", "C03_prefix", "C03_monotone", "C03_budget_le"],
         "quick": [hist("c03", 50, extra=T1)],
         "thorough": [hist("c03", 1000, "thorough", extra=T1), hist("c03", 200, "thorough")],
@@ -64,22 +66,25 @@ SCENARIOS = {
     "C07": {
         "theorems": ["C07_prefix_index", "C07_prefix_kind", "C07_range", "C07_frame_add", "C07_frame_append", "C07_frame_del",
                      "C07_frame_clear", "C07_frame_prepare", "C07_frame_build", "C07_answers", "C07_dump_build"],
-        "quick": [hist("c07", 50, extra=T1), hist("c07", 10)],
+        "quick": [hist("c07", 50, extra=T1), hist("c07", 10), hist("c18", 20, extra=T1)],
         "thorough": [hist("c07", 1200, "thorough", extra=T1), hist("c07", 300, "thorough")],
         "counts": ["C07"],
     },
     "C08": {
-        "theorems": ["C08_snapshot", "C08_reader_sees_committed", "C08_abort", "C08_commit"],
-        "quick": [{"name": "threads", "args": ["threads", "--seed", "{seed}"]}],
+        "modules": ["C08", "Reachable"],
+        "theorems": ["C08_built_reachable", "C08_versions_reachable", "C08_snapshot", "C08_reader_sees_committed", "C08_abort", "C08_commit"],
+        "quick": [{"name": "threads", "args": ["threads", "--seed", "{seed}"]},
+                  {"name": "faults:sweep", "args": ["faults", "--seed", "{seed}", "--part", "sweep"]}],
         "thorough": [{"name": "threads", "args": ["threads", "--seed", "{seed}", "--tier", "thorough"], "timeout": 3000}],
-        "counts": ["C08", "C01", "C02"],
+        "counts": ["C08", "C01", "C02", "C10"],
         "assumptions": ["MVCC and the single-writer lock are LMDB's; thread interleavings are sampled (barrier-controlled and free-running), not proved"],
     },
     "C09": {
-        "theorems": ["C09_crash", "C09_uncommitted_lost", "C09_committed_kept", "C09_restart"],
-        "quick": [{"name": "crash", "args": ["crash", "--seed", "{seed}"]}],
+        "modules": ["C09", "Reachable"],
+        "theorems": ["C09_recovered_reachable", "C09_crash", "C09_uncommitted_lost", "C09_committed_kept", "C09_restart"],
+        "quick": [{"name": "crash", "args": ["crash", "--seed", "{seed}"]}, hist("c06", 25, extra=T1)],
         "thorough": [{"name": "crash", "args": ["crash", "--seed", "{seed}", "--tier", "thorough"], "timeout": 3000}],
-        "counts": ["C09", "C01", "C02"],
+        "counts": ["C09", "C01", "C02", "C06"],
         "assumptions": ["durability of a returned commit is LMDB's; a process kill (SIGKILL) stands for a crash, power loss is out of reach"],
     },
     "C10": {
@@ -128,8 +133,8 @@ SCENARIOS = {
         "assumptions": ["each atomic cell is sequentially consistent in the model (Relaxed orderings beyond per-operation atomicity are not modelled)"],
     },
     "C14": {
-        "modules": ["C14", "Unconditional"],
-        "theorems": ["C14_any_memory", "C14_insert_terminates", "C14_makeT_fuel", "C14_resplit_makes_node", "C14_livelock_before_fix",
+        "modules": ["C14", "Unconditional", "Reachable"],
+        "theorems": ["C14_any_memory_forest", "C14_any_memory", "C14_insert_terminates", "C14_makeT_fuel", "C14_resplit_makes_node", "C14_livelock_before_fix",
                      "C14_build_fuel_forest", "C14_reify_total", "C14_deleteTree_total"],
         "quick": [hist("c14", 60, extra=T1, timeout=900)],
         "thorough": [hist("c14", 600, "thorough", extra=T1, timeout=3400), hist("c14", 100, "thorough", timeout=3400)],
@@ -159,8 +164,8 @@ SCENARIOS = {
         "counts": ["C18", "C01", "C02"],
     },
     "C20": {
-        "modules": ["C20", "Unconditional"],
-        "theorems": ["C20_side_total", "C20_sideSplit_total", "C20_search_total", "C20_search_wellformed", "C20_order_total",
+        "modules": ["C20", "Unconditional", "Reachable"],
+        "theorems": ["C20_degenerate_forest", "C20_side_total", "C20_sideSplit_total", "C20_search_total", "C20_search_wellformed", "C20_order_total",
                      "C20_readback_any_bits", "C20_empty_side_random", "C20_build_fuel"],
         "quick": [hist("c20", 84, extra=T1, timeout=1500)],
         "thorough": [hist("c20", 420, "thorough", extra=T1, timeout=3400), hist("c20", 84, "thorough", timeout=3400)],
